@@ -149,7 +149,36 @@ func (w *walker) walk(path string, v reflect.Value) {
 			kw.walk("", it.Key())
 			ents = append(ents, ent{kw.sb.String(), it.Value()})
 		}
-		sort.Slice(ents, func(i, j int) bool { return ents[i].k < ents[j].k })
+		sort.SliceStable(ents, func(i, j int) bool { return ents[i].k < ents[j].k })
+		// keys that print alike (several NaN keys are distinct map keys): order such
+		// a run by the entries' values, so that the fingerprint does not depend on
+		// Go's map iteration order
+		for i := 0; i < len(ents); {
+			j := i + 1
+			for j < len(ents) && ents[j].k == ents[i].k {
+				j++
+			}
+			if j-i > 1 {
+				run := ents[i:j]
+				texts := make(map[int]string, len(run))
+				for x := range run {
+					vw := &walker{visited: map[visit]bool{}}
+					vw.walk("", run[x].v)
+					texts[x] = vw.sb.String()
+				}
+				idx := make([]int, len(run))
+				for x := range idx {
+					idx[x] = x
+				}
+				sort.SliceStable(idx, func(a, b int) bool { return texts[idx[a]] < texts[idx[b]] })
+				sorted := make([]ent, len(run))
+				for x, from := range idx {
+					sorted[x] = run[from]
+				}
+				copy(run, sorted)
+			}
+			i = j
+		}
 		for _, e := range ents {
 			key := strings.ReplaceAll(strings.TrimSpace(e.k), "\n", ";")
 			w.walk(path+"{"+key+"}", e.v)
